@@ -1,0 +1,26 @@
+//go:build verif
+
+// Package verifhook provides scheduling hooks for model-based verification of the station. With the
+// `verif` build tag a test can install a (blocking) function that is called at every hook point,
+// which turns the hooks into the gates of a deterministic scheduler.
+package verifhook
+
+import "sync/atomic"
+
+var yield atomic.Value // of func(point string, id any)
+
+// SetYield installs f as the function called by Yield (nil uninstalls it).
+func SetYield(f func(point string, id any)) {
+	if f == nil {
+		f = func(string, any) {}
+	}
+	yield.Store(f)
+}
+
+// Yield marks a point between two critical sections: the installed function may block the calling
+// goroutine there until a scheduler releases it.
+func Yield(point string, id any) {
+	if f, ok := yield.Load().(func(string, any)); ok && f != nil {
+		f(point, id)
+	}
+}
